@@ -837,7 +837,7 @@ func genItCase(t *rapid.T) itCase {
 	case "Partitions":
 		c.N = rapid.IntRange(1, maxN+1).Draw(t, "n")
 	case "IntegerPartitions":
-		c.N = rapid.IntRange(0, sz(18, 30)).Draw(t, "n")
+		c.N = rapid.IntRange(0, sz(32, 45)).Draw(t, "n") // p(32) = 8349, p(45) = 89134: runs of nine and more equal parts occur
 	case "Product", "RestrictedPrefixProduct":
 		if c.Iter == "Product" && rapid.IntRange(0, 7).Draw(t, "huge") == 0 {
 			// products whose size does not fit a machine word: many small factors, or a few large powers of two
